@@ -46,6 +46,13 @@ def pd_class(r: fb.Rng, neg_ok=True, big_ok=True):
         p, d = r.choice([0.0, -0.0]), r.choice(DIVS)
     elif k == 10:
         d = -r.choice(DIVS); p = -r.uniform(0.0, 9.0)       # negative / negative = positive ratio
+    elif k == 11:
+        # near-integers (either sign) with the fast-path divisor 2.0 or another one: fract() tiny but non-zero
+        base = float(r.below(17) - 8)
+        off = r.choice([1e-11, -1e-11, 1e-12, -1e-12, 3e-10, -3e-10, 1e-15, -1e-15])
+        p = base + off if r.chance(0.7) else fb.nxt(base, r.choice([-2, -1, 1, 2]))
+        d = 2.0 if r.chance(0.7) else r.choice(DIVS)
+        return p, d
     else:
         d = r.choice(DIVS); p = r.uniform(0.0, 4.0) * d / 2.0
     if neg_ok and r.chance(0.25):
